@@ -30,7 +30,7 @@ func generic(v any) any {
 }
 
 func Run(r *core.Run) {
-	r.Rule = "documents: {1,2,3 keys} x {0,1,2 services} x {0,1,2 also-known-as} x every subset of 5 kinds of further members (thorough: also every order of the key list): PatchesFromDocument -> every patch validates -> ApplyPatches({}) reproduces the document; " +
+	r.Rule = "documents: {1,2,3 keys} x {0,1,2 services} x {0,1,2 also-known-as} x every subset of 5 kinds of further members, 17 further member names that begin like a reserved name (identifier, services, publicKeys, ...) (thorough: also every order of the key list): PatchesFromDocument -> every patch validates -> ApplyPatches({}) reproduces the document; " +
 		"8 constructors on valid and structurally invalid input; FromBytes(Bytes(p)) for every patch of the C10 alphabet and of the documents; FromBytes on {action a, value key k} for all 8 x 7 (+ unknown / missing / non-string action); documents with an id; " +
 		"distinct = distinct documents / patch texts; non-trivial = all"
 	r.Assumptions = []string{"document equality through the observable projection of ref/patch", "member names are ordinary (no JSON-pointer or quoting metacharacters), as the statement requires"}
@@ -66,6 +66,10 @@ func Run(r *core.Run) {
 				}
 			}
 		}
+	}
+	// further members whose ordinary names begin like a reserved member name (id, service, publicKey, alsoKnownAs, @context) without being one
+	for _, name := range []string{"identifier", "idx", "i", "ids", "services", "serviceProvider", "servic", "publicKeys", "publicKeyBase", "publicKe", "alsoKnownAsWell", "alsoKnown", "context", "contexts", "document", "patches", "action"} {
+		docs = append(docs, `{"publicKey":[`+k[0]+`],"`+name+`":{"n":[1]}}`, `{"publicKey":[`+k[0]+`],"service":[`+s[0]+`],"alsoKnownAs":[`+a[0]+`],"`+name+`":"v","scalar":1}`)
 	}
 	// also-known-as URIs that are valid but not spelled the way a URL library would print them: they are data and must come back as written
 	for _, u := range []string{`"HTTPS://Upper.example/Me"`, `"https://x.example/jos\u00e9"`, `"https://x.example/me#"`, `"http://x.example/%7Euser"`, `"did:Example:ABC"`, `"https://x.example/a b"`} {
